@@ -26,6 +26,15 @@ def check(ctx, cfg):
     r2_send(ctx, cfg)
     r3(ctx, cfg)
     r4(ctx, cfg)
+    r5(ctx, cfg)
+
+
+def r5(ctx, cfg):
+    """"attached funds ... are returned if the call fails": a failing call made as a sub-message may be absorbed by the
+    dispatcher's reply, so the transfer must have happened in a cache layer that is dropped with the failure - the C02.R1
+    obligations (every sub-message is dispatched inside `transactional` on a cache of the parent's storage) under C05's id"""
+    from rules import C02
+    C02.r1(ctx, cfg, R="C05.R5")
 
 
 def _msg_funds(o, fkey):
@@ -215,9 +224,8 @@ def r3(ctx, cfg):
                sample="self.block = block")
 
 
-def r4(ctx, cfg):
+def r4(ctx, cfg, R="C05.R4"):
     F, P = cfg.facts, cfg.prov
-    R = "C05.R4"
     for key, cs in ((W + "with_storage", "wasm::Wasm::contract_storage_mut"),
                     (W + "with_storage_readonly", "wasm::Wasm::contract_storage")):
         f = ctx.need_fn(R, key)
@@ -260,7 +268,12 @@ def r4(ctx, cfg):
                     ok = is_param(ed.get("block", ("?",)), "block") and ci[0] == "agg" and is_param(dict(ci[2]).get("address", ("?",)), "address")
         ctx.ob(R, key, "action(handler, deps, env)", ok, "action is not invoked with (handler, deps, env) built here", fn=f,
                sample="action(contract_code(..), Deps{..}, Env{block, contract: address})")
-    # dispatch sites: address given to call_X == contract given to process_response
+    r4_dispatch(ctx, cfg, R)
+
+
+def r4_dispatch(ctx, cfg, R="C05.R4"):
+    """dispatch sites: address given to call_X == contract given to process_response (whose sub-messages are sent as that contract)"""
+    F, P = cfg.facts, cfg.prov
     from rules.C04 import DISPATCH, ADDR_ARG
     PR = W + "process_response"
     for fkey, callx, method, literal, _ in DISPATCH:
